@@ -3,11 +3,14 @@ package checks
 import (
 	"crypto/aes"
 	"crypto/cipher"
+	"encoding/json"
 	"fmt"
 	"sort"
+	"strings"
 
 	"github.com/gebn/bmc"
 	"github.com/gebn/bmc/pkg/dcmi"
+	"github.com/gebn/bmc/pkg/ipmi"
 
 	"verif/env"
 	"verif/ref"
@@ -50,6 +53,12 @@ func init() {
 		}
 		return fmt.Sprintf("%+v", *si), nil
 	}})
+	Replayers["c05endless"] = func(raw json.RawMessage) (string, bool) {
+		var c c05EndlessCase
+		json.Unmarshal(raw, &c)
+		k, msg := c05Endless(c)
+		return fmt.Sprintf("%+v: %s %s", c, k, msg), k != ""
+	}
 	histAlphabets["nasty"] = nastyAlphabet
 	histJudges["C05"] = c05ProtoJudge
 }
@@ -228,7 +237,69 @@ func c05ProtoJudge(cfg histCfg, o *histObs) []finding {
 	return out
 }
 
+// c05EndlessCase: a BMC every one of whose replies is well-formed and asks the
+// library to continue a paged exchange.
+type c05EndlessCase struct {
+	Kind  string `json:"kind"`
+	Bytes int    `json:"bytes"` // cipher-suite record data served (16 per list index, index taken modulo 64)
+}
+
+// c05Endless runs one paged exchange against such a BMC with a live context
+// that never expires (every reply arrives at once, no time passes): the
+// exchange must end by itself. The transport gives control back (Runaway)
+// after 400 transmissions - six times what the protocol's 64 list indexes allow.
+func c05Endless(c c05EndlessCase) (string, string) {
+	cfg := defaultConfig()
+	rec := csRecOEM.Encode()
+	var data []byte
+	for len(data) < c.Bytes {
+		data = append(data, rec...)
+	}
+	cfg.CipherSuiteData = data[:c.Bytes]
+	w := newWorld(cfg, nil, nil)
+	w.T.MaxAttempts = 400
+	var err error
+	p := guard(func() {
+		switch c.Kind {
+		case "RetrieveSupportedCipherSuites":
+			_, err = bmc.RetrieveSupportedCipherSuites(w.Ctx, w.Conn)
+		case "NewV2Session-with-discovery":
+			var s *bmc.V2Session
+			s, err = w.Conn.NewV2Session(w.Ctx, &bmc.V2SessionOpts{SessionOpts: bmc.SessionOpts{Username: "c05", Password: cfg.Password, MaxPrivilegeLevel: ipmi.PrivilegeLevelUser}})
+			if err == nil {
+				s.Close(w.Ctx)
+			}
+		}
+	})
+	if strings.HasPrefix(p, "RUNAWAY") {
+		return "C05/protocol/unbounded-loop/" + c.Kind, fmt.Sprintf("%s against a BMC serving %d bytes of cipher-suite records in full 16-byte chunks: %s (list indexes requested: %d)", c.Kind, c.Bytes, p, len(w.T.Log))
+	}
+	if p != "" {
+		return "C05/protocol/panic/" + siteKey(p), fmt.Sprintf("%s with %d bytes of record data: %s", c.Kind, c.Bytes, p)
+	}
+	_ = err // a value or an error: both are fine
+	return "", ""
+}
+
 func runC05Proto(r *rep.R, idx *int64) {
+	for _, kind := range []string{"RetrieveSupportedCipherSuites", "NewV2Session-with-discovery"} {
+		for _, n := range []int{1008, 1016, 1023, 1024, 1025, 1032, 2048, 4096} {
+			*idx++
+			if !r.Mine(*idx) {
+				continue
+			}
+			c := c05EndlessCase{Kind: kind, Bytes: n}
+			k, msg := c05Endless(c)
+			r.Eval(rep.H("endless", kind, n), true)
+			r.Trace()
+			if k != "" {
+				r.Outcome("violation")
+				r.Violate(k, msg, "c05endless", c, nil)
+			} else {
+				r.Outcome("paged-exchange-ends-by-itself")
+			}
+		}
+	}
 	suite := ref.Suite{Auth: 1, Integ: 1, Conf: 1}
 	// in-session positions
 	for _, op := range []int{opGetDeviceID, opGetSDR, opPowerReading, opSessionInfo, opSensorReading, opChassisStatus, opSetPriv, opRetrieveSDRs, opSensorInfo, opClose} {
